@@ -106,6 +106,10 @@ ARITY = [
     "let u = concat (/a);\nres u on get -> {};\n",
     "let g h = h str;\nlet f x y = { 'a x, 'b y };\nres / on get -> <g f>;\n",
     "let f x = x;\nlet g = f;\nres / on get -> <g str num>;\n",
+    # a relation (not wrapped in a content) as the range, the domain or a :: operand of a transfer
+    "let next = /items/{ 'id int } on get -> { 'name str };\nres /items on post : { 'name str } -> <status=201, next>, get -> next;\n",
+    "let link = /l on get -> <>;\nres /a on put : link -> link :: <status=404, {}>;\n",
+    "let r = / on get -> r;\nres r;\n",
     # the name of a rec binder or of a parameter used after its scope has ended: not in scope, never a panic
     "let @pair = { 'first rec x { 'next x }, 'second x };\nres / on get -> <@pair>;\n",
     "res /tree on get -> (rec x { 'label str, 'children [x] });\nres /node on get -> <x>;\n",
